@@ -314,7 +314,29 @@ func c13Gate(c *Ctx) {
 	}
 }
 
+// c06SnapshotPosition: the TXID a snapshot is published under and the WAL extent it copies
+// are read in one executor critical section; a position read before the executor is
+// acquired can be overtaken by a sync, and the snapshot 1..N then carries N+1's pages.
+func c06SnapshotPosition(c *Ctx) {
+	const rule = "R8-snapshot-position-atomic"
+	fn := c.fn(rule, "(*ls.DB).snapshotPosition")
+	if fn == nil {
+		return
+	}
+	la := newLockAnalysis(c.P)
+	la.interproc()
+	n := 0
+	for _, vs := range callSitesV(fn, nameIs("(*ls.DB).Pos", "(*ls.DB).snapshotWALEndOffset")) {
+		n++
+		k := vs.Call()
+		c.check(la.heldBefore(k)["DB.execSem"], rule, fnName(fn)+": "+calleeName(k)+" is read under the sync executor", c.pos(k), "execSem held",
+			"the snapshot's position is read outside the executor critical section that fixes its content: a sync queued ahead can commit a newer transaction in between, and the snapshot is published under the older TXID")
+	}
+	c.floor(rule, n, 2, "position reads in snapshotPosition")
+}
+
 func runC06(c *Ctx) {
+	c06SnapshotPosition(c)
 	fn := c.fn("R1-compaction-source", "(*ls.Compactor).Compact")
 	if fn != nil {
 		name := fnName(fn)
@@ -351,7 +373,7 @@ func runC06(c *Ctx) {
 			nApp := 0
 			for _, call := range calls(fn) {
 				if calleeName(call) == "builtin:append" && l != nil && l.Blocks[call.Block()] {
-					if v := call.Value(); v != nil && v.Type().String() == "[]io.Reader" {
+					if v := call.Value(); v != nil && v.Type().Underlying().String() == "[]io.Reader" {
 						avoid[call.Block()] = true
 						nApp++
 					}
